@@ -741,6 +741,8 @@ def run(ctx, res):
     check_wnaf(res, facts)
     check_bits(res, facts)
     check_glvdecomp(res, facts)
+    from rules import iter_override
+    iter_override.check_width(res, facts)      # the two GLV digit streams are zipped by position
     check_fixedbase(res, facts)
     # the affine GLV hook (endomorphism_affine) feeds glv_mul_affine: phi(O) must be O (shared with C12's fast subgroup tests)
     from rules import c12
